@@ -12,6 +12,8 @@
 //   - every single-bit flip of the signature fails (one period per depth quick, all thorough),
 //   - Sign for any other period (through the API, and with the exported Period field forced)
 //     is refused or yields a signature that verifies at period t only (never at the requested one),
+//   - history: the same key signs mA, mB, mA in the same period; all returned slices are kept (uncopied)
+//     and re-checked for their own / the other message right away and after every later Update,
 //   - at depth 6 the same table through VerifySignedKES and ledger.VerifyKesComponents
 //     (slot -> period arithmetic).
 //
@@ -160,6 +162,36 @@ func (r *runner) job(d uint64, si int, seed []byte, msgs [][]byte, allFlips bool
 		flipPeriod = 1
 	}
 
+	// signatures that the caller keeps: every one must stay valid for its own (period, message) and for
+	// nothing else, whatever the key does afterwards (further Sign calls, Update, erasure)
+	type keptSig struct {
+		t   uint64
+		sig []byte // the slice exactly as returned by kes.Sign (never copied)
+		msg []byte
+		bad bool // already reported: not re-checked at later stages (one root cause, one report)
+	}
+	var kept []keptSig
+	mA, mB := derive("keptA", c.Seed, si, 32), derive("keptB", c.Seed, si, 32)
+	recheck := func(stage string, now uint64, from int) {
+		for i := from; i < len(kept); i++ {
+			ks := &kept[i]
+			if ks.bad {
+				continue
+			}
+			ks.bad = !verify(d, ks.sig, ks.t, pk0, ks.msg) || verify(d, ks.sig, ks.t, pk0, map[bool][]byte{true: mB, false: mA}[bytes.Equal(ks.msg, mA)])
+			other := mA
+			if bytes.Equal(ks.msg, mA) {
+				other = mB
+			}
+			cl := fmt.Sprintf("kept:%s:%s:t=%d:now=%d", tag, stage, ks.t, now)
+			r.expect(cl+":own", "Sign|kept-signature-no-longer-verifies|"+stage, d, seed, ks.sig, ks.t, ks.t, pk0, ks.msg, ks.msg, true, "Verify")
+			r.expect(cl+":other-msg", "Sign|kept-signature-verifies-for-other-message|"+stage, d, seed, ks.sig, ks.t, ks.t, pk0, ks.msg, other, false, "Verify")
+			if now != ks.t && now < n {
+				r.expect(cl+":at-current-period", "Sign|kept-signature-verifies-at-later-period|"+stage, d, seed, ks.sig, ks.t, now, pk0, ks.msg, ks.msg, false, "Verify")
+			}
+		}
+	}
+
 	for t := uint64(0); t < n; t++ {
 		// --- public key constant along the chain
 		c.Eval(fmt.Sprintf("pk-const:%s:t=%d", tag, t), "")
@@ -262,6 +294,20 @@ func (r *runner) job(d uint64, si int, seed []byte, msgs [][]byte, allFlips bool
 			}
 		}
 
+		// --- history: several signatures from the same key in the same period, all of them kept
+		{
+			from := len(kept)
+			for _, m := range [][]byte{mA, mB, mA} {
+				sg, err := kes.Sign(sk, t, m)
+				if err != nil {
+					c.Violation("Sign|refuses-own-period", fmt.Sprintf("depth %d period %d (repeated Sign): %v", d, t, err), rd(t))
+					continue
+				}
+				kept = append(kept, keptSig{t: t, sig: sg, msg: m})
+			}
+			recheck("after-later-Sign-in-same-period", t, from)
+		}
+
 		// --- Sign for any other period: refused, or the result verifies at t only
 		for tq := uint64(0); tq < n+1; tq++ {
 			if tq == t {
@@ -313,6 +359,8 @@ func (r *runner) job(d uint64, si int, seed []byte, msgs [][]byte, allFlips bool
 				c.Add("predecessor_handle_erased", 1)
 			}
 			sk = nsk
+			// everything signed so far must survive the evolution (and the erasure of the predecessor)
+			recheck("after-Update", t+1, 0)
 		} else {
 			if err == nil && nsk != nil {
 				c.Eval(fmt.Sprintf("update:%s:t=%d", tag, t), "update-past-last-period-ok")
@@ -329,6 +377,7 @@ func (r *runner) job(d uint64, si int, seed []byte, msgs [][]byte, allFlips bool
 			} else {
 				c.Eval(fmt.Sprintf("update:%s:t=%d", tag, t), "update-exhausted-refused")
 			}
+			recheck("after-last-Update-attempt", n, 0)
 		}
 	}
 }
